@@ -256,7 +256,21 @@ func forbiddenAnnotation(kind string) faultFn {
 		if kind == "MACRO" || kind == "PASTE" {
 			t.ensureMacroUse()
 		}
-		ds, _ := t.find(func(d, p *model.RDir) bool { return d.Kind == kind })
+		want := kind
+		parentKind := ""
+		if kind == "Body-in-Request" {
+			want, parentKind = "Body", "Request"
+			// make sure there is a Request written with a Body directive
+			if ds, _ := t.find(func(d, p *model.RDir) bool { return d.Kind == "Body" && p != nil && p.Kind == "Request" }); len(ds) == 0 {
+				m, _ := t.method()
+				if child(m, "Request") == nil {
+					m.Children = append([]*model.RDir{{Kind: "Request", Keyword: "Request", Children: []*model.RDir{{Kind: "Body", Keyword: "Body", Params: []string{"any"}}}}}, m.Children...)
+				}
+			}
+		}
+		ds, _ := t.find(func(d, p *model.RDir) bool {
+			return d.Kind == want && (parentKind == "" || (p != nil && p.Kind == parentKind))
+		})
 		if len(ds) == 0 {
 			return nil
 		}
@@ -520,7 +534,7 @@ func faultTable() map[string]faultFn {
 	for _, k := range []string{"SERVER", "TYPE", "ENUM", "MACRO", "PASTE", "Title", "Version", "BaseUrl", "Method", "Protocol", "TAG", "Tags", "OperationId", "JSIGHT"} {
 		tb["missing-parameter:"+k] = missingParam(k, "missing-parameter:"+k)
 	}
-	for _, k := range []string{"INFO", "Title", "Version", "Description", "BaseUrl", "URL", "Query", "Request", "Headers", "Path", "Protocol", "MACRO", "PASTE", "Tags", "OperationId", "JSIGHT"} {
+	for _, k := range []string{"INFO", "Title", "Version", "Description", "BaseUrl", "URL", "Query", "Request", "Headers", "Path", "Protocol", "MACRO", "PASTE", "Tags", "OperationId", "JSIGHT", "Body-in-Request", "Params", "Result"} {
 		tb["forbidden-annotation:"+k] = forbiddenAnnotation(k)
 	}
 	for _, k := range []string{"Path", "Query", "Headers", "TYPE", "ENUM"} {
